@@ -357,6 +357,11 @@ def run_check(prop, tier, root, workers=None, worlds=None, wall=None, world_list
         st = spec["structures"].get(sid, {}) if sid else {}
         from matsim.sio import struct_digest
 
+        from matsim.ops import in_scope
+
+        if not in_scope(prop, "CRASH", op.get("op")):
+            agg["probes"]["out_of_scope:CRASH"] += 1
+            continue
         v = dict(property=prop, cls="CRASH", op_index=opi, op=op.get("op"), detail="process died with signal %d during op %d (%s phase)" % (-rc, opi, j.get("phase")),
                  signal=-rc, recipe=st.get("meta"), struct=struct_digest(st) if st else None)
         raw_violations.append({"world": j["world"], "violation": v, "spec": spec})
